@@ -118,6 +118,26 @@ func c12Pipes(tier string) []C12Pipe {
 			}
 		}
 	}
+	// ---- merge over long lazy operands, left by a PANIC on the evaluating goroutine: raised by the less function, by the
+	// closure of the stage that consumes the merged list (reduce, mapReduce, present run it on the caller's stack), by
+	// the stack guard of a runaway recursion - plain and inside try/catch (the panic is recovered there or at the top)
+	deep := "func deep(k) if k=0 then 0 else deep(k-1)+1; "
+	big := int64(100000000000)
+	mergeLeft := []struct{ name, pre, body string }{
+		{"less/host-panic", "", "numbers(n).merge(numbers(n),(a,b)->hpanic(a,3)<b).sum()"},
+		{"less/runtime-error", "", "numbers(n).merge(numbers(n),(a,b)->hnil(a,3)<b).sum()"},
+		{"less/guard", deep, "numbers(n).merge(numbers(n),(a,b)->if a>3 then deep(20000)<b else a<b).sum()"},
+		{"reduce/host-panic", "", "numbers(n).merge(numbers(n),(a,b)->a<b).reduce((a,b)->hpanic(b,3))"},
+		{"reduce/guard", deep, "numbers(n).merge(numbers(n),(a,b)->a<b).reduce((a,b)->if b>3 then deep(20000) else a+b)"},
+		{"mapReduce/host-panic", "", "numbers(n).merge(numbers(n),(a,b)->a<b).mapReduce(0,(s,e)->s+hnil(e,3))"},
+		{"present/host-panic", "", "numbers(n).merge(numbers(n),(a,b)->a<b).present(e->hpanic(e,3)=7)"},
+		{"map-downstream/host-panic", "", "numbers(n).merge(numbers(n),(a,b)->a<b).map(e->hpanic(e,3)).sum()"},
+		{"operand/host-panic", "", "numbers(n).merge(numbers(n).combine((p,q)->hpanic(q,3)),(a,b)->a<b).sum()"},
+	}
+	for _, ml := range mergeLeft {
+		ps = append(ps, C12Pipe{Name: "merge-left-by-panic/" + ml.name, Prog: ml.pre + ml.body, Stage: "merge", Stop: "left-by-panic", N: big},
+			C12Pipe{Name: "merge-left-by-panic/" + ml.name + "/try", Prog: ml.pre + "try " + ml.body + " catch e->0-1", Stage: "merge", Stop: "left-by-panic", N: big})
+	}
 	// ---- multiUse maps with every mix of valid and invalid entries in every order: nothing may be started
 	// before the whole map has been validated
 	entries := []string{"l->l.size()", "l->l.sum()", "3", "(x,y)->x", "\"s\""}
@@ -338,7 +358,7 @@ func cmdC12(seed int64, tier, outDir string) {
 				sum.Count("pipeline_switch", "parallel (verified by goroutine ids)")
 			}
 			early := p.Stop != "complete"
-			how := map[string]string{"early": "consumer-stops-early", "error": "error", "complete": "complete", "panic": "source-panics"}[p.Stop]
+			how := map[string]string{"early": "consumer-stops-early", "error": "error", "complete": "complete", "panic": "source-panics", "left-by-panic": "left-by-panic"}[p.Stop]
 			sig := "model/" + p.Name
 			if r.Left > 0 {
 				sig = c12MainKind(r.Kinds) + "/" + how
